@@ -1,11 +1,17 @@
 import SamVerif.Model.IntRange
 import SamVerif.Model.Assign
+import SamVerif.Model.Gates
 import Driver.Util
 /-! Line-protocol driver for property C06 (model side).
   tok <raw>*            raw ::= i<digits> | m | o<k>        -> `T <tok,...> E <flags> V <values>`
   asg <ty> <ty>                                             -> `a=. m=. s=. p=..`
   slv <tps> <concrete> <generic>                            -> `s=. g=. e=.`
   join if|match <ty>*   branch-body types of a chain / of match arms -> 1 (accepted) | 0
+  vis member|field <curMod> <curClass> <cMod> <cId> <cPrivate> <memberPublic|->   -> 1 (resolved) | 0
+  imp 0|1|-             imported toplevel is public / private / absent  -> 1 | 0
+  tya <m.i=k,...> <ty>  type-argument arity validation                  -> 1 | 0
+  conf <sig>* | <sig>*  expected | declared; sig ::= name/pub/[n=ty]*[n=-]*/ty  -> 1 | 0
+  bnd <targ> <bound> <super>*                                           -> 1 | 0
 Type syntax (prefix, no blanks): a0 a1 | u b i | g<n>; | n<s>,<m>,<id>(<ty>*) | f(<ty>*)<ty> -/
 namespace Driver.C06
 open SamVerif Driver
@@ -96,6 +102,41 @@ def insertSorted (kv : Nat × String) : List (Nat × String) → List (Nat × St
   | [] => [kv]
   | x :: xs => if kv.1 ≤ x.1 then kv :: x :: xs else x :: insertSorted kv xs
 
+def parseArity (s : String) : Gates.ArityTable :=
+  (s.splitOn ",").filterMap fun e =>
+    match e.splitOn "=" with
+    | [mi, k] =>
+      match mi.splitOn "." with
+      | [m, i] =>
+        match m.toNat?, i.toNat?, k.toNat? with
+        | some m, some i, some k => some ((m, i), k)
+        | _, _, _ => none
+      | _ => none
+    | _ => none
+
+/-- `[n=ty][n=-]…` -/
+partial def parseTParams (cs : List Char) (acc : List (Nat × Option Assign.Ty)) :
+    Option (List (Nat × Option Assign.Ty)) :=
+  match cs with
+  | [] => some acc.reverse
+  | '[' :: r =>
+    match takeNum r with
+    | some (n, '=' :: '-' :: ']' :: r') => parseTParams r' ((n, none) :: acc)
+    | some (n, '=' :: r') =>
+      match parseTy r' with
+      | some (t, ']' :: r'') => parseTParams r'' ((n, some t) :: acc)
+      | _ => none
+    | _ => none
+  | _ => none
+
+def parseSig (s : String) : Option Gates.MSig :=
+  match s.splitOn "/" with
+  | [n, p, tps, ty] =>
+    match n.toNat?, parseTParams tps.toList [], parseTyS ty with
+    | some n, some tps, some ty => some { name := n, isPublic := p == "1", tparams := tps, ty := ty }
+    | _, _, _ => none
+  | _ => none
+
 def step (_ : Unit) (line : String) : Unit × String :=
   match words line with
   | "tok" :: raws =>
@@ -119,6 +160,32 @@ def step (_ : Unit) (line : String) : Unit × String :=
       let l := ts.filterMap id
       ((), bit (if kind == "match" then Assign.matchArmsOk l else Assign.ifChainOk l))
     else ((), "bad-type")
+  | ["vis", kind, cm, cc, m, i, priv, pub] =>
+    match cm.toNat?, cc.toNat?, m.toNat?, i.toNat? with
+    | some cm, some cc, some m, some i =>
+      let cx : Gates.Ctx := ⟨cm, cc⟩
+      let c : Gates.ClassRef := ⟨m, i, priv == "1"⟩
+      let ms : List (Nat × Bool) := if pub == "-" then [] else [(7, pub == "1")]
+      ((), bit (if kind == "field" then Gates.fieldResolved cx c ms 7 else Gates.memberResolved cx c ms 7))
+    | _, _, _, _ => ((), "bad-op")
+  | ["imp", e] =>
+    ((), bit (Gates.importOk (if e == "-" then none else some (e == "1"))))
+  | ["tya", tab, ty] =>
+    match parseTyS ty with
+    | some t => ((), bit (Gates.tyArgsOk (parseArity tab) t))
+    | none => ((), "bad-type")
+  | "conf" :: rest =>
+    let exp := (rest.takeWhile (· != "|")).map parseSig
+    let dec := ((rest.dropWhile (· != "|")).drop 1).map parseSig
+    if exp.all Option.isSome && dec.all Option.isSome then
+      ((), bit (Gates.classConforms (exp.filterMap id) (dec.filterMap id)))
+    else ((), "bad-sig")
+  | "bnd" :: targ :: bound :: supers =>
+    match parseTyS targ, parseTyS bound with
+    | some t, some b =>
+      let ss := supers.map parseTyS
+      if ss.all Option.isSome then ((), bit (Gates.boundOk t (ss.filterMap id) b)) else ((), "bad-type")
+    | _, _ => ((), "bad-type")
   | ["slv", tps, c, g] =>
     let ns := ((tps.splitOn ",").filterMap String.toNat?)
     match parseTyS c, parseTyS g with
